@@ -8,7 +8,7 @@ import subprocess
 import sys
 import tempfile
 
-mdir, demo_pkg = sys.argv[1], sys.argv[2]
+mdir, demo_pkg = os.path.abspath(sys.argv[1]), sys.argv[2]
 pkgs = sys.argv[3:]
 wt = tempfile.mkdtemp(prefix="seedwt_", dir="/tmp")
 os.rmdir(wt)
